@@ -569,6 +569,18 @@ class FullRunner(Runner):
             for spec in plist(kv.get('fincb', '-')):
                 d.add_finish_processing_callback(self.make_part_cb(spec))
             runner = self
+
+            def failobs(dev, is_failure, lost, i=i):
+                # what an observer sees at the moment a FAILURE is announced (first shutdown callback): the failed
+                # machine has lost its part and must already have given its resources back.  Silent when it has.
+                if not is_failure or getattr(dev, '_part', None) is not None:
+                    return
+                rr = getattr(dev, '_reserved_resources', None)
+                held = {k: v for k, v in (rr.reserved_resources.items() if rr is not None else ()) if v != 0}
+                if held:
+                    use = jn(';', (f'{runner.rid(k)}:{ival(runner.rm.get_resource_usage(k))}' for k in held))
+                    runner.results.append(f'failobs {i} holds-at-failure [{runner.req_str(held)}] usage={use}')
+            d.add_shutdown_callback(failobs)
             for c in range(int(kv.get('nshut', '0'))):
                 def shut(dev, is_failure, lost, c=c, i=i):
                     runner.results.append(f'shut {i} {c} {1 if is_failure else 0} '
